@@ -1269,6 +1269,7 @@ int32 matrixRegisterSession(ssl_t *ssl)
  */
     g_sessionTable[i].cipher = NULL;
     g_sessionTable[i].inUse += 1;
+    ssl->sessCacheHeld = 1;
 /*
     The sessionId is the current serverRandom value, with the first 4 bytes
     replaced with the current cache index value for quick lookup later.
@@ -1313,6 +1314,11 @@ int32 matrixClearSession(ssl_t *ssl, int32 remove)
     {
         return PS_ARG_FAIL;
     }
+    if (!ssl->sessCacheHeld)
+    {
+        /* sessionId is not a table entry of ours (client-chosen value) */
+        return PS_ARG_FAIL;
+    }
     id = ssl->sessionId;
 
     i = ((uint32) id[3] << 24) + (id[2] << 16) + (id[1] << 8) + id[0];
@@ -1321,6 +1327,7 @@ int32 matrixClearSession(ssl_t *ssl, int32 remove)
         return PS_LIMIT_FAIL;
     }
     psLockMutex(&g_sessionTableLock);
+    ssl->sessCacheHeld = 0;
     g_sessionTable[i].inUse -= 1;
     if (g_sessionTable[i].inUse == 0)
     {
@@ -1418,6 +1425,7 @@ int32 matrixResumeSession(ssl_t *ssl)
         SSL_HS_MASTER_SIZE);
     ssl->cipher = g_sessionTable[i].cipher;
     g_sessionTable[i].inUse += 1;
+    ssl->sessCacheHeld = 1;
     if (g_sessionTable[i].inUse == 1)
     {
         DLListRemove(&g_sessionTable[i].chronList);
@@ -1447,6 +1455,13 @@ int32 matrixUpdateSession(ssl_t *ssl)
         /* No table entry.  matrixRegisterSession was full of inUse entries */
         return PS_LIMIT_FAIL;
     }
+    if (!ssl->sessCacheHeld)
+    {
+        /* No table entry of ours: sessionId is a value the client chose
+           (echoed for ticket resumption or as TLS 1.3 legacy_session_id).
+           Its first bytes must not be used as an index into the table. */
+        return PS_LIMIT_FAIL;
+    }
     id = ssl->sessionId;
     i = ((uint32) id[3] << 24) + (id[2] << 16) + (id[1] << 8) + id[0];
     if (i >= SSL_SESSION_TABLE_SIZE)
@@ -1457,7 +1472,11 @@ int32 matrixUpdateSession(ssl_t *ssl)
     If there is an error on the session, invalidate for any future use
  */
     psLockMutex(&g_sessionTableLock);
-    g_sessionTable[i].inUse += ssl->flags & SSL_FLAGS_CLOSED ? -1 : 0;
+    if (ssl->flags & SSL_FLAGS_CLOSED)
+    {
+        g_sessionTable[i].inUse -= 1;
+        ssl->sessCacheHeld = 0; /* reference given back */
+    }
     if (g_sessionTable[i].inUse == 0)
     {
         /* End of the line */
